@@ -18,7 +18,8 @@ RULE = ("case = (zone, local now, day mask, start minute); grid: 7 current weekd
         "over {00:00,00:01,06:30,12:00,12:01,23:58,23:59}^2 plus (t,t-1),(t,t),(t,t+1) x seconds {0,30,59} x zones. "
         "Non-trivial = today selected and its time passed, or local weekday != UTC weekday, or >= 2 days selected; "
         "distinct by (zone, weekday, now, mask, start)."
-        ' Also: 8 clock readings around midnight on the day before/of/after every UTC-offset change 2023-2025 of 6 zones (dst-midnight), clocks a fraction of a second before/after the start minute (subsecond), the same record listed twice at two moments (repoll), and two or three readings less than a second apart that straddle the start minute or local midnight (quick-succession, enumerated over 4 zones x 4 dates x 5 day sets x 8 start times).')
+        ' Also: 8 clock readings around midnight on the day before/of/after every UTC-offset change 2023-2025 of 6 zones (dst-midnight), clocks a fraction of a second before/after the start minute (subsecond), the same record listed twice at two moments (repoll), and two or three readings less than a second apart that straddle the start minute or local midnight (quick-succession, enumerated over 4 zones x 4 dates x 5 day sets x 8 start times).'
+        " For one mask class in 16 the start is also given without leading zeros ('9:30', '9:5'): a refusal is counted, not judged; a text that is returned must name the right day.")
 ASSUMPTIONS = [
     "time_machine virtual clock + zone; 'still ahead' means start minute > current minute (a start equal to the current minute is not ahead)",
     "the text is matched case-insensitively for the tokens 'today', 'tomorrow', 'next <Weekday>' and the HH:MM start time",
